@@ -33,7 +33,7 @@ TOOLS = ["echo data | tee {f}", "echo data | tee -a {f}", "sort -o {f} in", "sor
 
 
 def targets(work):
-    return ["ok", "okdir/a", "okdir/deep/b", "f", "no", "q", "sub/x", "./ok", "okdir/../f", work + "/ok", work + "/f", '"ok"', "'okdir/a'", "-", "/dev/null", "&1", "../escape", "ok/", "okdir//a", "sub/../ok", "3", "10", "007", "&2", "&-", "1", "-x", "~nobody", ".", "ok.1"]
+    return ["ok", "okdir/a", "okdir/deep/b", "f", "no", "q", "sub/x", "./ok", "okdir/../f", work + "/ok", work + "/f", '"ok"', "'okdir/a'", "-", "/dev/null", "&1", "../escape", "ok/", "okdir//a", "sub/../ok", "3", "10", "007", "&2", "&-", "1", "-x", "~nobody", ".", "ok.1", "okdir/link/x", "okdir/link/../esc", "okdir/cur.log", "okdir/./link/y"]
 
 
 def config_for(work, r):
@@ -122,6 +122,12 @@ def search(ctx):
                     with open(os.path.join(work, f), "w") as fh:
                         fh.write(data)
                 os.utime(os.path.join(work, "in"))
+                # a symlink inside a granted directory that leads out of it, and a link to a file
+                os.makedirs(os.path.join(jail.root, "outside"), exist_ok=True)
+                for link, dest in (("okdir/link", os.path.join(jail.root, "outside")), ("okdir/cur.log", os.path.join(work, "no"))):
+                    lp = os.path.join(work, link)
+                    if not os.path.lexists(lp):
+                        os.symlink(dest, lp)
                 cfg_text = config_for(work, rr)
                 cfg = C.parse_config(cfg_text)
                 x, cd = gen_case(rr, work)
